@@ -57,9 +57,13 @@ func newC14Cast() *c14Cast {
 		panic("c14 cast: issuer names are expected to differ encoded and to collide as pkix.Name: " + k.caB.Cert.Subject.String() + " / " + k.caA.Cert.Subject.String())
 	}
 	subj := pkix.Name{CommonName: "shared subject", Organization: []string{"verif"}}
-	k.c1 = world.Issue(k.caA, world.CertOpt{Subject: &subj, Serial: big.NewInt(5000), KeyKind: "ec", KeyIdx: 5, OCSP: []string{c14URLA}})
-	k.c1b = world.Issue(k.caB, world.CertOpt{Subject: &subj, Serial: big.NewInt(5000), KeyKind: "ec", KeyIdx: 7, OCSP: []string{c14URLB}})
-	k.c2 = world.Issue(k.caA, world.CertOpt{CN: "second client", Serial: big.NewInt(5001), KeyKind: "ec", KeyIdx: 5, OCSP: []string{c14URLA}})
+	// the serial numbers of c1 and c2 (same issuer) are 72 bits wide and agree in the low 64 bits; c1' (other issuer)
+	// has c1's serial number
+	s1 := new(big.Int).Add(new(big.Int).Lsh(big.NewInt(1), 64), big.NewInt(0x5eed))
+	s2 := new(big.Int).Add(new(big.Int).Lsh(big.NewInt(2), 64), big.NewInt(0x5eed))
+	k.c1 = world.Issue(k.caA, world.CertOpt{Subject: &subj, Serial: s1, KeyKind: "ec", KeyIdx: 5, OCSP: []string{c14URLA}})
+	k.c1b = world.Issue(k.caB, world.CertOpt{Subject: &subj, Serial: s1, KeyKind: "ec", KeyIdx: 7, OCSP: []string{c14URLB}})
+	k.c2 = world.Issue(k.caA, world.CertOpt{CN: "second client", Serial: s2, KeyKind: "ec", KeyIdx: 5, OCSP: []string{c14URLA}})
 	k.certs = []*world.Ident{k.c1, k.c1b, k.c2}
 	k.issuers = []*world.Ident{k.caA, k.caB, k.caA}
 	k.urls = []string{c14URLA, c14URLB, c14URLA}
